@@ -18,15 +18,15 @@ plan('C06',
           'each text is also fed to the incremental parser in all 2-chunk cuts (short texts) or sampled cuts plus one-byte-at-a-time and random k-chunk partitions; '
           'non-trivial = document with >= 2 nodes or a root string; distinct = hash of the text',
      jobs=[
-         Job('c06_jsondec', 'conform', 'asan', quick=1500, thorough=60000, shards=(4, 8), params=dict(dump=1)),
-         Job('c06_jsondec', 'conform', 'plain', quick=3000, thorough=120000, shards=(2, 4), params=dict(dump=1)),
+         Job('c06_jsondec', 'conform', 'asan', quick=3000, thorough=60000, shards=(4, 8), params=dict(dump=1)),
+         Job('c06_jsondec', 'conform', 'plain', quick=8000, thorough=120000, shards=(2, 4), params=dict(dump=1)),
          Job('c06_jsondec', 'xdl', 'asan', quick=1000, thorough=40000, shards=(2, 4)),
-         Job('c06_jsondec', 'total', 'asan', quick=4000, thorough=300000, shards=(4, 10)),
-         Job('c06_jsondec', 'total', 'plain', quick=4000, thorough=200000, shards=(2, 4)),
+         Job('c06_jsondec', 'total', 'asan', quick=10000, thorough=300000, shards=(4, 10)),
+         Job('c06_jsondec', 'total', 'plain', quick=12000, thorough=200000, shards=(2, 4)),
          Job('c06_jsondec', 'deep', 'asan', quick=60, thorough=600, shards=(2, 4), params=dict(dump=1)),
          Job('c06_jsondec', 'deep', 'plain', quick=60, thorough=600, shards=(1, 2)),
-         Job('c06_jsondec', 'hostile_depth', 'asan', quick=24, thorough=48, shards=(2, 4), batch=1),
-         Job('c06_jsondec', 'hostile_depth', 'plain', quick=24, thorough=48, shards=(2, 4), batch=1),
+         Job('c06_jsondec', 'hostile_depth', 'asan', quick=48, thorough=96, shards=(2, 4), batch=1),
+         Job('c06_jsondec', 'hostile_depth', 'plain', quick=48, thorough=96, shards=(2, 4), batch=1),
      ],
      post=post,
      assumptions=COMMON_ASSUME + ['python3 json is the independent parser; documents avoid NUL escapes and lone surrogates as the property says',
